@@ -14,12 +14,14 @@ def end_checks(key_back=True):
     return out
 
 
-def acq_entry(shape, api, mode, blocking, style, env, keystyle="owned", release="drop", user_panic=False, name=None):
+def acq_entry(shape, api, mode, blocking, style, env, keystyle="owned", release="drop", user_panic=False, name=None, budget=3):
     """one acquisition + release of `shape` through `api`.
     env: 'q' quiescent with symbolic pre-state, 'a' adversarial.  Monitors of C03/C04/C05/C13/C09(a)."""
     xm, sm = held_masks(shape, mode)
     L = []
     L.append("w().reset(%s);" % ("true" if env == "a" else "false"))
+    if env == "a":
+        L.append("w().interference_left.set(%d);" % budget)
     L += shape.setup
     if env == "q":
         L += pre_stmts(shape)
@@ -116,11 +118,15 @@ def acq_entry(shape, api, mode, blocking, style, env, keystyle="owned", release=
     return nm, fn_wrap(nm, L)
 
 
-def gen_acq(tier, envs=("q", "a"), shapes=None, only_try=False, only_blocking=False):
+def gen_acq(tier, envs=("q", "a"), shapes=None, only_try=False, only_blocking=False, kinds=None, budget=None):
     """-> (text, [entry names])"""
     out = [HEADER]
     names = []
+    if budget is None:
+        budget = 2 if tier == "quick" else 3
     for sh in (shapes or all_shapes(tier)):
+        if kinds is not None and not kinds(sh):
+            continue
         for (api, mode, blocking, style) in apis_for(sh):
             if only_try and blocking:
                 continue
@@ -133,7 +139,7 @@ def gen_acq(tier, envs=("q", "a"), shapes=None, only_try=False, only_blocking=Fa
                 else:
                     variants.append(("lent", "drop"))
                 for keystyle, release in variants:
-                    nm, txt = acq_entry(sh, api, mode, blocking, style, env, keystyle, release)
+                    nm, txt = acq_entry(sh, api, mode, blocking, style, env, keystyle, release, budget=budget)
                     names.append(nm)
                     out.append(txt)
     return "\n".join(out), names
